@@ -41,6 +41,9 @@ def runCase (prop : String) (line : String) : String :=
   match parseNode line with
   | none => "?\tparse-error"
   | some (.mk (.other "unit") [fn, arg, impl] _) => runUnit fn arg impl
+  | some (.mk (.other "pair") [id, mode] [optsN, knownN, patN, commentsN, a, b]) =>
+    let v := oraclePair mode (optsOfNode optsN) (envOfNodes knownN patN commentsN) a b
+    s!"{id}\tpair\toracle={v.render}"
   | some (.mk _ [id, status] [optsN, knownN, patN, commentsN, inN, outN, diagsN]) =>
     let o := optsOfNode optsN
     let env := envOfNodes knownN patN commentsN
